@@ -11,6 +11,7 @@ import (
 	"os"
 	"path/filepath"
 	"sort"
+	"strconv"
 	"strings"
 
 	"github.com/massnetorg/mass-core/pocec"
@@ -112,7 +113,15 @@ type Op struct {
 	Remark   string `json:"remark,omitempty"`
 	SeedKind string `json:"seed,omitempty"` // fresh | dup | short | empty
 	X        int    `json:"x,omitempty"`    // export selector
+	// create only: the wallet's entropy source fails EntropyFail reads in a row after EntropySkip successful ones
+	// (drivers that can inject this set wl.EntropyFault; elsewhere the fields are ignored)
+	EntropySkip int `json:"entropy_skip,omitempty"`
+	EntropyFail int `json:"entropy_fail,omitempty"`
 }
+
+// EntropyFault, when a driver sets it, arms (fail > 0) or disarms (0, 0) a transient failure of the entropy source
+// the keystore's key generation reads.
+var EntropyFault func(skip, fail int)
 
 // Res is what the engine observed for one step.
 type Res struct {
@@ -359,7 +368,18 @@ func (e *Env) Do(op Op) Res {
 			}
 		}
 		e.Trace[len(e.Trace)-1] += fmt.Sprintf(" seed=%s pass=%s(%s)", hex.EncodeToString(seed), pass, pc)
+		if op.EntropyFail > 0 && EntropyFault != nil {
+			EntropyFault(op.EntropySkip, op.EntropyFail)
+			e.Trace[len(e.Trace)-1] += fmt.Sprintf(" entropy_source_fails=%d_reads_after_%d", op.EntropyFail, op.EntropySkip)
+			e.Run.Count("creates_under_entropy_fault", 1)
+		}
 		id, err := w.M.NewKeystore(pass, seed, op.Remark, Net(), FastScrypt)
+		if op.EntropyFail > 0 && EntropyFault != nil {
+			EntropyFault(0, 0)
+			if err == nil {
+				e.Run.Count("creates_under_entropy_fault_acknowledged", 1)
+			}
+		}
 		res.Err, res.Ack = err, err == nil
 		if err == nil {
 			// acknowledged: judge whether it was allowed
@@ -706,6 +726,7 @@ func (e *Env) Do(op Op) Res {
 					m.Priv = eff
 				}
 				e.nontrivial["import"] = true
+				e.Run.Count("accepted_imports_of_absent_keystores", 1)
 				// C01: the imported keystore must equal what was exported
 				got := w.Snapshot().Get(id)
 				want := ex.Snap
@@ -714,6 +735,38 @@ func (e *Env) Do(op Op) Res {
 				}
 			}
 		}
+	case "import-damaged":
+		// a backup file damaged in one field, restored with the right passphrase into another (scratch) wallet of the same
+		// process: the restore is expected to fail; what matters is what the failure leaves in logs and files (scanned)
+		if len(m.Exports) == 0 {
+			res.Note = "skipped"
+			break
+		}
+		ex := m.Exports[((op.X%len(m.Exports))+len(m.Exports))%len(m.Exports)]
+		cases, terr := TamperCases(ex.JSON, e.Rng)
+		var pickFrom []Tamper
+		for _, c := range cases {
+			if strings.HasPrefix(c.Field, "crypto.") && strings.HasPrefix(c.Mutation, "bit-flip") {
+				pickFrom = append(pickFrom, c)
+			}
+		}
+		if terr != nil || len(pickFrom) == 0 {
+			res.Note = "skipped"
+			break
+		}
+		tc := pickFrom[e.Rng.Intn(len(pickFrom))]
+		od := filepath.Join(e.Dir, fmt.Sprintf("other-wallet-%d", len(e.Trace)))
+		ow, oerr := Create(od, FreshPass(e.Rng), nil)
+		if oerr != nil {
+			res.Note = "skipped"
+			break
+		}
+		_, _, ierr := ow.M.ImportKeystore(tc.JSON, ex.Pass, nil)
+		ow.Close()
+		os.RemoveAll(od)
+		res.Err, res.Ack = ierr, false
+		e.Trace[len(e.Trace)-1] += fmt.Sprintf(" export_of=%s field=%s mutation=%s err=%v", ex.ID, tc.Field, tc.Mutation, ierr)
+		e.Run.Count("damaged_backups_restored_with_the_right_passphrase", 1)
 	case "lock":
 		if f := e.front(); f != nil && f.Lock() == nil {
 		} else {
@@ -1241,6 +1294,13 @@ func (e *Env) Secrets() map[string][]byte {
 		add(name+":hex", []byte(hex.EncodeToString(raw)))
 		add(name+":HEX", []byte(strings.ToUpper(hex.EncodeToString(raw))))
 		add(name+":b64", []byte(b64(raw)))
+		// what fmt's %v / %d make of a byte slice or array ("[12 0 255 ...]"), and hex bytes separated by blanks ("% x")
+		dec, hx := make([]string, len(raw)), make([]string, len(raw))
+		for i, c := range raw {
+			dec[i], hx[i] = strconv.Itoa(int(c)), hex.EncodeToString([]byte{c})
+		}
+		add(name+":go-byte-list", []byte(strings.Join(dec, " ")))
+		add(name+":hex-spaced", []byte(strings.Join(hx, " ")))
 	}
 	m := e.M
 	addAll("public-passphrase", m.Pub)
